@@ -22,7 +22,11 @@ import (
 )
 
 type Facts struct {
-	Status map[string]string // fact id -> "read" | "unavailable: why"
+	curDir     string          // package directory the translator resolves constants and helpers in
+	helperOut  *strings.Builder // the module the helpers are written to
+	helpers    map[string]bool // helper functions already emitted (dir.name)
+	inProgress map[string]bool
+	Status     map[string]string // fact id -> "read" | "unavailable: why"
 	files  map[string]*strings.Builder
 	fset   *token.FileSet
 	pkgs   map[string]map[string]*ast.File // dir -> filename -> file
@@ -117,6 +121,10 @@ type tr struct {
 	params map[string]bool
 	funcs  map[string]bool // callable translated functions
 	err    error
+	// consts resolves a package-level integer / character constant; need translates a
+	// same-package one-parameter function on demand and returns its Lean name
+	consts func(name string) (int64, bool)
+	need   func(name string) (string, bool)
 }
 
 func (t *tr) bad(n ast.Node, why string) string {
@@ -136,6 +144,11 @@ func (t *tr) expr(e ast.Expr) string {
 		}
 		if x.Name == "true" || x.Name == "false" {
 			return x.Name
+		}
+		if t.consts != nil {
+			if v, ok := t.consts(x.Name); ok {
+				return fmt.Sprintf("(%d : Int)", v)
+			}
 		}
 		return t.bad(e, "unknown identifier "+x.Name)
 	case *ast.BasicLit:
@@ -196,6 +209,11 @@ func (t *tr) expr(e ast.Expr) string {
 			if t.funcs[id.Name] {
 				return "(" + id.Name + " " + t.expr(x.Args[0]) + ")"
 			}
+			if t.need != nil {
+				if ln, ok := t.need(id.Name); ok {
+					return "(" + ln + " " + t.expr(x.Args[0]) + ")"
+				}
+			}
 		}
 		return t.bad(e, "call "+fmtNode(x.Fun))
 	}
@@ -237,6 +255,54 @@ func (t *tr) body(stmts []ast.Stmt) string {
 			elseB = t.body(stmts[1:])
 		}
 		return "(if " + t.expr(s.Cond) + " then " + thenB + " else " + elseB + ")"
+	case *ast.SwitchStmt:
+		// `switch { case c: … }` and `switch x { case a, b: … }` whose clauses all return (or
+		// fall out of the switch into the statements that follow it)
+		if s.Init != nil {
+			return t.bad(s, "switch with init")
+		}
+		tag := ""
+		if s.Tag != nil {
+			tag = t.expr(s.Tag)
+		}
+		rest := stmts[1:]
+		var def *ast.CaseClause
+		var clauses []*ast.CaseClause
+		for _, c := range s.Body.List {
+			cc, ok := c.(*ast.CaseClause)
+			if !ok {
+				return t.bad(c, "switch clause")
+			}
+			for _, st := range cc.Body {
+				if br, ok := st.(*ast.BranchStmt); ok && br.Tok == token.FALLTHROUGH {
+					return t.bad(st, "fallthrough")
+				}
+			}
+			if cc.List == nil {
+				def = cc
+			} else {
+				clauses = append(clauses, cc)
+			}
+		}
+		tail := func(body []ast.Stmt) string { return t.body(append(append([]ast.Stmt{}, body...), rest...)) }
+		out := ""
+		if def != nil {
+			out = tail(def.Body)
+		} else {
+			out = t.body(rest)
+		}
+		for i := len(clauses) - 1; i >= 0; i-- {
+			var conds []string
+			for _, e := range clauses[i].List {
+				if tag == "" {
+					conds = append(conds, t.expr(e))
+				} else {
+					conds = append(conds, "(decide ("+tag+" = "+t.expr(e)+"))")
+				}
+			}
+			out = "(if (" + strings.Join(conds, " || ") + ") then " + tail(clauses[i].Body) + " else " + out + ")"
+		}
+		return out
 	}
 	return t.bad(stmts[0], "statement")
 }
@@ -255,12 +321,116 @@ func (f *Facts) translateFunc(b *strings.Builder, leanName string, ft *ast.FuncT
 	}
 	p := ft.Params.List[0].Names[0].Name
 	t := &tr{params: map[string]bool{p: true}, funcs: known}
+	if f.curDir != "" && f.helperOut != nil {
+		dir := f.curDir
+		t.consts = func(name string) (int64, bool) { return f.constValue(dir, name) }
+		t.need = func(name string) (string, bool) {
+			ln := "fn_" + name
+			if f.helpers[dir+"."+name] {
+				return ln, true
+			}
+			fd := f.funcDecl(dir, name)
+			if fd == nil || fd.Body == nil || f.inProgress[dir+"."+name] {
+				return "", false
+			}
+			f.inProgress[dir+"."+name] = true
+			defer delete(f.inProgress, dir+"."+name)
+			var tmp strings.Builder
+			if err := f.translateFunc(&tmp, ln, fd.Type, fd.Body, known); err != nil {
+				return "", false
+			}
+			f.helperOut.WriteString(tmp.String()) // straight into the module: valid on its own, and before any caller
+			f.helpers[dir+"."+name] = true
+			return ln, true
+		}
+	}
 	code := t.body(body.List)
 	if t.err != nil {
 		return t.err
 	}
 	fmt.Fprintf(b, "def %s (%s : Int) : %s :=\n  %s\n\n", leanName, p, ret, code)
 	return nil
+}
+
+// constExpr evaluates integer / character literals, conversions, unary minus, + and - and
+// references to other constants
+func (f *Facts) constExpr(dir string, e ast.Expr, depth int) (int64, bool) {
+	if depth > 8 {
+		return 0, false
+	}
+	switch x := e.(type) {
+	case *ast.ParenExpr:
+		return f.constExpr(dir, x.X, depth+1)
+	case *ast.CallExpr:
+		if len(x.Args) == 1 {
+			return f.constExpr(dir, x.Args[0], depth+1)
+		}
+	case *ast.UnaryExpr:
+		if v, ok := f.constExpr(dir, x.X, depth+1); ok {
+			switch x.Op {
+			case token.SUB:
+				return -v, true
+			case token.ADD:
+				return v, true
+			}
+		}
+	case *ast.BinaryExpr:
+		a, ok1 := f.constExpr(dir, x.X, depth+1)
+		b, ok2 := f.constExpr(dir, x.Y, depth+1)
+		if ok1 && ok2 {
+			switch x.Op {
+			case token.ADD:
+				return a + b, true
+			case token.SUB:
+				return a - b, true
+			}
+		}
+	case *ast.BasicLit:
+		switch x.Kind {
+		case token.INT:
+			if v, err := strconv.ParseInt(x.Value, 0, 64); err == nil {
+				return v, true
+			}
+		case token.CHAR:
+			if r, _, _, err := strconv.UnquoteChar(x.Value[1:len(x.Value)-1], '\''); err == nil {
+				return int64(r), true
+			}
+		}
+	case *ast.Ident:
+		return f.constValue(dir, x.Name)
+	}
+	return 0, false
+}
+
+// constValue resolves a package-level `const name = <int or char literal>` (also typed).
+func (f *Facts) constValue(dir, name string) (int64, bool) {
+	for _, af := range f.parseDir(dir) {
+		for _, d := range af.Decls {
+			gd, ok := d.(*ast.GenDecl)
+			if !ok || gd.Tok != token.CONST {
+				continue
+			}
+			for _, sp := range gd.Specs {
+				vs, ok := sp.(*ast.ValueSpec)
+				if !ok {
+					continue
+				}
+				for i, n := range vs.Names {
+					if n.Name != name || i >= len(vs.Values) {
+						continue
+					}
+					if v, ok := f.constExpr(dir, vs.Values[i], 0); ok {
+						return v, true
+					}
+					e := vs.Values[i]
+					if id, ok := e.(*ast.Ident); ok && id.Name != name {
+						return f.constValue(dir, id.Name)
+					}
+				}
+			}
+		}
+	}
+	return 0, false
 }
 
 // ---------------------------------------------------------------------------------
@@ -285,7 +455,7 @@ func leanNatList(xs []int) string {
 
 // Run regenerates every Extracted module. outDir = <verif>/lean/GoDebian/Extracted.
 func Run(repo, outDir string) (map[string]string, error) {
-	f := &Facts{Status: map[string]string{}, files: map[string]*strings.Builder{},
+	f := &Facts{Status: map[string]string{}, files: map[string]*strings.Builder{}, helpers: map[string]bool{}, inProgress: map[string]bool{},
 		fset: token.NewFileSet(), pkgs: map[string]map[string]*ast.File{}, repo: repo}
 	for _, step := range steps {
 		step(f)
